@@ -130,6 +130,7 @@ func (this *LedgerStoreImp) InitLedgerStoreWithGenesisBlock(genesisBlock *types.
 		if err != nil {
 			return fmt.Errorf("eventStore.ClearAll error %s", err)
 		}
+		crashPoint("genesis.afterClearAll")
 		defaultBookkeeper = keypair.SortPublicKeys(defaultBookkeeper)
 		bookkeeperState := &states.BookkeeperState{
 			CurrBookkeeper: defaultBookkeeper,
@@ -139,6 +140,7 @@ func (this *LedgerStoreImp) InitLedgerStoreWithGenesisBlock(genesisBlock *types.
 		if err != nil {
 			return fmt.Errorf("SaveBookkeeperState error %s", err)
 		}
+		crashPoint("genesis.afterBookkeeper")
 
 		result, err := this.executeBlock(genesisBlock)
 		if err != nil {
@@ -148,6 +150,7 @@ func (this *LedgerStoreImp) InitLedgerStoreWithGenesisBlock(genesisBlock *types.
 		if err != nil {
 			return fmt.Errorf("save genesis block error %s", err)
 		}
+		crashPoint("genesis.beforeVersion")
 		err = this.initGenesisBlock()
 		if err != nil {
 			return fmt.Errorf("init error %s", err)
@@ -301,14 +304,17 @@ func (this *LedgerStoreImp) recoverStore() error {
 		if err != nil {
 			return fmt.Errorf("save to event store height:%d error:%s", i, err)
 		}
+		crashPoint("recover.beforeEventCommit")
 		err = this.eventStore.CommitTo()
 		if err != nil {
 			return fmt.Errorf("eventStore.CommitTo height:%d error %s", i, err)
 		}
+		crashPoint("recover.afterEventCommit")
 		err = this.stateStore.CommitTo()
 		if err != nil {
 			return fmt.Errorf("stateStore.CommitTo height:%d error %s", i, err)
 		}
+		crashPoint("recover.afterStateCommit")
 	}
 	return nil
 }
@@ -751,6 +757,7 @@ func (this *LedgerStoreImp) submitBlock(block *types.Block, result store.Execute
 			block.Header.Height, blockRoot.ToHexString(), block.Header.BlockRoot.ToHexString())
 	}
 
+	crashPoint("submit.begin")
 	this.blockStore.NewBatch()
 	this.stateStore.NewBatch()
 	this.eventStore.NewBatch()
@@ -758,27 +765,33 @@ func (this *LedgerStoreImp) submitBlock(block *types.Block, result store.Execute
 	if err != nil {
 		return fmt.Errorf("save to block store height:%d error:%s", blockHeight, err)
 	}
+	crashPoint("submit.afterBlockBatch")
 	err = this.saveBlockToStateStore(block, result)
 	if err != nil {
 		return fmt.Errorf("save to state store height:%d error:%s", blockHeight, err)
 	}
+	crashPoint("submit.afterStateBatch")
 	err = this.saveBlockToEventStore(block)
 	if err != nil {
 		return fmt.Errorf("save to event store height:%d error:%s", blockHeight, err)
 	}
+	crashPoint("submit.beforeBlockCommit")
 	err = this.blockStore.CommitTo()
 	if err != nil {
 		return fmt.Errorf("blockStore.CommitTo height:%d error %s", blockHeight, err)
 	}
+	crashPoint("submit.afterBlockCommit")
 	// event store is idempotent to re-save when in recovering process, so save first before stateStore
 	err = this.eventStore.CommitTo()
 	if err != nil {
 		return fmt.Errorf("eventStore.CommitTo height:%d error %s", blockHeight, err)
 	}
+	crashPoint("submit.afterEventCommit")
 	err = this.stateStore.CommitTo()
 	if err != nil {
 		return fmt.Errorf("stateStore.CommitTo height:%d error %s", blockHeight, err)
 	}
+	crashPoint("submit.afterStateCommit")
 	this.setCurrentBlock(blockHeight, blockHash)
 
 	if events.DefActorPublisher != nil {
